@@ -103,6 +103,11 @@ func c08EchoSized(c *caseCtx, minAlt, maxAlt int) {
 			M{"name": "criteriaConcealment", "applyProbability": 1.0, "props": M{"randomSeed": c.rng.Intn(1000), "newCriterionRandomSeed": c.rng.Intn(1000)}},
 		}
 		c.count("omission_of_everything_then_concealment", 1)
+		if c.rng.Intn(2) == 0 {
+			// ... or by a preference reversal, which finds nothing to reverse, fires all the same and reports an empty selection
+			withJunk[1] = M{"name": "preferenceReversal", "applyProbability": 1.0, "props": M{"ratio": 0.5, "ordering": pick2(c.rng, []string{"weakest", "strongest", "random"})}}
+			c.count("omission_of_everything_then_reversal", 1)
+		}
 	}
 	if c.rng.Intn(2) == 0 {
 		withJunk = append(withJunk, disabledJunk(c.rng))
